@@ -18,6 +18,8 @@ recipes).
 """
 import traceback
 
+import sys
+
 import numpy as np
 from hypothesis import strategies as st
 
@@ -397,9 +399,16 @@ def register_plugins(variant):
     # file system is still a visible change of the file)
     script.write_text(PLUG_SCRIPT.format(add=[0.5, 7.0][variant], ver=variant)
                       + "# variant\n" * (1 + variant))
+    # (dclab's script import leaves the script directory in sys.path and removes the
+    # first entry instead; that is outside C06 - the harness keeps its own sys.path)
+    saved = list(sys.path)
+    try:
+        from_file = list(load_plugin_feature(script))
+    finally:
+        sys.path[:] = saved
     return [PlugInFeature("plug_s", info_st), PlugInFeature("plug_t", info_st),
             PlugInFeature("plug_n", info_n), PlugInFeature("plug_a", info_a)] \
-        + list(load_plugin_feature(script))
+        + from_file
 
 
 PLUG_SCRIPT = '''import numpy as np
